@@ -1,7 +1,7 @@
 ----------------------------- MODULE MCUniverse -----------------------------
 (* Bounded universes of claims, strategies and selections for the MC_* models (TLC only). *)
 EXTENDS SDJWTSys, Json
-CONSTANTS Names, Depth, MaxArr
+CONSTANTS Names, Depth, MaxArr, EmitEvery, MaxCustom
 
 Leaf(path) == JStr("v" \o path)
 RECURSIVE Vals(_,_)
@@ -19,7 +19,8 @@ AllPaths(v) == IF IsObj(v) THEN UNION {{<<k>>} \cup {<<k>> \o p : p \in AllPaths
                ELSE IF IsArr(v) THEN UNION {{<<Idx(i-1)>>} \cup {<<Idx(i-1)>> \o p : p \in AllPaths(v.e[i])} : i \in DOMAIN v.e}
                ELSE {}
 UserPaths(U) == {p \in AllPaths(U) : p[1] \notin {"iss", "exp"}}
-Strats(U) == {NoneS, TopS, AllS} \cup {CustomS(P) : P \in SUBSET UserPaths(U)}
+\* Custom over every subset of paths (thorough) or over the small subsets and the full set (quick: MaxCustom)
+Strats(U) == {NoneS, TopS, AllS} \cup {CustomS(P) : P \in {Q \in SUBSET UserPaths(U) : Cardinality(Q) <= MaxCustom \/ Q = UserPaths(U)}}
 
 \* type-consistent selection trees for an annotated value (arrays: every prefix length, plus one element too many)
 RECURSIVE Sels(_)
@@ -33,5 +34,6 @@ RootSels(at) == {s \in Sels(at) : s.t = "o" /\ DOMAIN s.f \cap {"iss", "exp"} = 
 FarExp == [k |-> "int", v |-> 100000]
 NoNbf == [k |-> "absent", v |-> 0]
 \* scenario emission: one line per complete behaviour
-EmitScenario == ph = "done" => PrintT(<<"SCN", ToJson(hist)>>)
+\* (EmitEvery = 1: every behaviour; k: a 1/k sample; 0: none)
+EmitScenario == (ph = "done" /\ EmitEvery > 0) => (IF TLCGet("generated") % EmitEvery = 0 THEN PrintT(<<"SCN", ToJson(hist)>>) ELSE TRUE)
 =============================================================================
